@@ -42,7 +42,7 @@ func init() {
 		MinEvals:    floor(20000, 600000),
 		MinDistinct: floor(2000, 60000),
 		RequiredCells: func(string) []string {
-			cells := []string{"cid/ToSealed", "cid/ToSealedWriter", "cid/FromSealed", "cid/FromSealedReader", "cid/container", "cid/ToSealedWriter-piecewise", "cid/container-foreign-section-cid", "sig/s-flip", "sig/der-padded", "variant/extra-element"}
+			cells := []string{"cid/ToSealed", "cid/ToSealedWriter", "cid/FromSealed", "cid/FromSealedReader", "cid/container", "cid/ToSealedWriter-piecewise", "cid/container-foreign-section-cid", "sig/s-flip", "sig/der-padded", "sig/zero-prepended", "sig/zero-appended", "sig/leading-zeros-stripped", "sig/leading-zero-signature/rsa2048", "variant/extra-element"}
 			for _, k := range []string{"widen-1", "widen-2", "widen-4", "widen-8", "indefinite", "indefinite-split", "map-reverse", "map-rotate", "float-narrow", "null-undefined", "all-knobs"} {
 				cells = append(cells, "variant/"+k)
 			}
@@ -222,8 +222,63 @@ func (p *pieceWriter) Write(b []byte) (int, error) {
 	return p.buf.Write(b)
 }
 
+// paddedSigVariants: the signature as a number written with another count of leading zero bytes
+// (fixed-width schemes - RSA, Ed25519 - have exactly one acceptable width), or followed by a zero.
+func paddedSigVariants(sig []byte) map[string][]byte {
+	out := map[string][]byte{
+		"zero-prepended": append([]byte{0}, sig...),
+		"zero-appended":  append(append([]byte{}, sig...), 0),
+	}
+	if len(sig) > 1 && sig[0] == 0 {
+		i := 0
+		for i < len(sig)-1 && sig[i] == 0 {
+			i++
+		}
+		out["leading-zeros-stripped"] = append([]byte{}, sig[i:]...)
+	}
+	return out
+}
+
+// c08LeadingZeroSignatures: one RSA signature in 256 starts with a zero byte; such tokens are
+// searched for (the nonce is varied) and offered with the zeros stripped from the signature's
+// byte string - the same number, the same signed content, other bytes.
+func c08LeadingZeroSignatures(w *mon.W) {
+	for ai, alg := range []string{"rsa2048", "ed25519"} {
+		iss := gen.ByAlg(alg)[0]
+		found := 0
+		for try := 0; try < 2500 && found < 2; try++ {
+			typ := []string{"dlg", "inv"}[(try+ai)%2]
+			s := gen.RandomSpec(w.Rng, typ, gen.SpecOpts{Issuer: iss, Minimal: true, NoBig: true})
+			tk, err := s.Build()
+			if err != nil {
+				continue
+			}
+			sealed, c0, err := tk.ToSealed(iss.Priv)
+			if err != nil {
+				continue
+			}
+			root, rest, err := ref.ParseCBOR(sealed)
+			if err != nil || len(rest) != 0 || root.Major != 4 || len(root.Items) != 2 || root.Items[0].Major != 2 || len(root.Items[0].Data) == 0 || root.Items[0].Data[0] != 0 {
+				continue
+			}
+			found++
+			for kind, sig := range paddedSigVariants(root.Items[0].Data) {
+				c := root.Clone()
+				c.Items[0].Data = sig
+				c.Items[0].Width = 0
+				vb := c.Encode()
+				w.Cover("sig/" + kind)
+				w.Cover("sig/leading-zero-signature/" + alg)
+				w.Distinct(vb)
+				c08OfferVariant(w, s, typ, "sig-"+kind+"/"+alg, "signature/"+alg, sealed, vb, c08Decoders(typ), c0)
+			}
+		}
+	}
+}
+
 func runC08(w *mon.W) {
 	r := w.Rng
+	c08LeadingZeroSignatures(w)
 	total := w.Share(w.Pick(40, 600))
 	for it := 0; it < total; it++ {
 		typ := []string{"dlg", "inv"}[it%2]
@@ -417,6 +472,18 @@ func runC08(w *mon.W) {
 		}
 		// signature re-encodings that need no key
 		if root.Major == 4 && len(root.Items) == 2 && root.Items[0].Major == 2 {
+			if strings.HasPrefix(s.Iss.Alg, "rsa") || s.Iss.Alg == "ed25519" {
+				// (the ECDSA schemes carry DER, whose re-encodings are enumerated below)
+				for kind, sig := range paddedSigVariants(root.Items[0].Data) {
+					c := root.Clone()
+					c.Items[0].Data = sig
+					c.Items[0].Width = 0
+					vb := c.Encode()
+					w.Cover("sig/" + kind)
+					w.Distinct(vb)
+					c08OfferVariant(w, s, typ, "sig-"+kind+"/"+s.Iss.Alg, "signature/"+s.Iss.Alg, sealed, vb, decs, c0)
+				}
+			}
 			for kind, sig := range ecdsaSigVariants(s.Iss.Alg, root.Items[0].Data) {
 				c := root.Clone()
 				c.Items[0].Data = sig
